@@ -28,6 +28,8 @@ impl Transport {
 			};
 			(loop_start, loop_end)
 		});
+		// an empty or inverted loop region can never be wrapped into; ignore it
+		let loop_region = loop_region.filter(|(loop_start, loop_end)| loop_end > loop_start);
 		Self {
 			position: if reverse {
 				num_frames - 1 - start_position
@@ -53,6 +55,10 @@ impl Transport {
 			};
 			(loop_start, loop_end)
 		});
+		// an empty or inverted loop region can never be wrapped into; ignore it
+		self.loop_region = self
+			.loop_region
+			.filter(|(loop_start, loop_end)| loop_end > loop_start);
 	}
 
 	pub fn increment_position(&mut self, num_frames: usize) {
